@@ -299,3 +299,12 @@ PROPS["C06"]["claim"] += (" TERMINATION of Work::run (run_loops_terminate, Lemma
     "and each ready-loop round consumes a build of a finite stock. The want phase's recursion bound is not covered. A REPORTED "
     "DEPENDENCY CYCLE IS REAL (cycle_diagnostic_sound): the named files form a cycle of ordering edges returning to the first; "
     "validation edges start a fresh stack.")
+
+PROPS["C19"]["monitors"] = PROPS["C19"]["monitors"] + ["totalIsSum"]
+PROPS["C09"]["monitors"] = PROPS["C09"]["monitors"] + ["notesHidden"]
+
+PROPS["C14"]["monitors"] = PROPS["C14"]["monitors"] + ["oneNodePerLocation"]
+PROPS["C13"]["modes"] = PROPS["C13"]["modes"] + ["load"]
+PROPS["C13"]["nontrivial"]["load"] = PROPS["C14"]["nontrivial"]["load"]
+PROPS["C13"]["monitors"] = PROPS["C13"]["monitors"] + ["oneNodePerLocation"]
+PROPS["C13"]["rule"] += " || spellings written in the manifest: " + PROPS["C14"]["rule"]
